@@ -852,7 +852,7 @@ func (fr *frame) execValue(v ssa.Value, cur *State) SV {
 		s := fr.val(x.X)
 		return fr.changeType(s, x.Type())
 	case *ssa.Convert:
-		return fr.convert(x)
+		return fr.convert(x, cur)
 	case *ssa.TypeAssert:
 		return fr.typeAssert(x)
 	case *ssa.MakeSlice:
@@ -1087,7 +1087,7 @@ func (fr *frame) changeType(s SV, to types.Type) SV {
 	return SV{t: s.t, typ: to}
 }
 
-func (fr *frame) convert(x *ssa.Convert) SV {
+func (fr *frame) convert(x *ssa.Convert, cur *State) SV {
 	vc := fr.vc
 	s := fr.val(x.X)
 	from, to := x.X.Type(), x.Type()
@@ -1105,19 +1105,55 @@ func (fr *frame) convert(x *ssa.Convert) SV {
 	case vc.sortOf(from) == vc.sortOf(to) && !isStringType(from) && !isStringType(to):
 		return SV{t: s.t, typ: to}
 	case isStringType(to) && vc.sortOf(from) == "Bytes":
-		vc.declRaw("fn:bytes2str", "(declare-fun bytes2str (Bytes) Str)\n(declare-fun str2bytes (Str) Bytes)")
+		vc.declBytesStr()
 		return SV{t: app("bytes2str", s.t), typ: to}
 	case isStringType(from) && vc.sortOf(to) == "Bytes":
-		vc.declRaw("fn:bytes2str", "(declare-fun bytes2str (Bytes) Str)\n(declare-fun str2bytes (Str) Bytes)")
+		vc.declBytesStr()
 		r := app("str2bytes", s.t)
 		vc.assume(eq(app("bytes2str", r), s.t))
 		vc.assume(eq(app("bytes_len", r), app("str_len", s.t)))
 		return SV{t: r, typ: to}
 	}
+	if sl, ok := to.Underlying().(*types.Slice); ok && isStringType(from) && vc.sortOf(to) == "Slice" {
+		// heap mode []byte(s): a fresh array of len(s) bytes whose content spells s
+		if b, ok := sl.Elem().Underlying().(*types.Basic); ok && b.Kind() == types.Uint8 {
+			ref := cur.alloc
+			cur.alloc = vc.bump(cur.alloc)
+			h := vc.arrHeap(sl.Elem())
+			row := vc.fresh("strrow", "(Array Int Int)")
+			vc.assume("(forall ((wf_i Int)) (! (and (<= 0 (select " + row + " wf_i)) (<= (select " + row + " wf_i) 255)) :pattern ((select " + row + " wf_i))))")
+			vc.heapSet(cur, h, sto(vc.heapGet(cur, h), ref, row))
+			vc.declRaw("fn:str_of", "(declare-fun str_of ((Array Int Int) Int Int) Str)")
+			n := app("str_len", s.t)
+			vc.assume(eq(app("str_of", row, "0", n), s.t))
+			return SV{t: app("mk_slice", ref, "0", n, n), typ: to}
+		}
+	}
+	if sl, ok := from.Underlying().(*types.Slice); ok && isStringType(to) && vc.sortOf(from) == "Slice" {
+		// heap mode string(b): a function of the bytes in the slice's window
+		if b, ok := sl.Elem().Underlying().(*types.Basic); ok && b.Kind() == types.Uint8 {
+			vc.declRaw("fn:str_of", "(declare-fun str_of ((Array Int Int) Int Int) Str)")
+			h := vc.arrHeap(sl.Elem())
+			r := app("str_of", sel(vc.heapGet(cur, h), app("s_ref", s.t)), app("s_off", s.t), app("s_len", s.t))
+			vc.assume(eq(app("str_len", r), app("s_len", s.t)))
+			return SV{t: r, typ: to}
+		}
+	}
 	fr.vc.assumes["conversion "+from.String()+" -> "+to.String()+" havocked"] = true
 	c := vc.fresh("cv", vc.sortOf(to))
 	vc.assume(vc.typeFacts(c, to, "", 0))
 	return SV{t: c, typ: to}
+}
+
+// declBytesStr: string([]byte) and []byte(string) in value mode. A non-nil byte string is determined
+// by its string; []byte(s) is never nil.
+func (vc *VC) declBytesStr() {
+	vc.needSort("Bytes")
+	vc.needSort("Str")
+	vc.declRaw("fn:bytes2str", `(declare-fun bytes2str (Bytes) Str)
+(declare-fun str2bytes (Str) Bytes)
+(assert (forall ((b Bytes)) (! (and (= (str_len (bytes2str b)) (bytes_len b)) (=> (not (= b bytes_nil)) (= (str2bytes (bytes2str b)) b))) :pattern ((bytes2str b)))))
+(assert (forall ((s Str)) (! (and (= (bytes2str (str2bytes s)) s) (not (= (str2bytes s) bytes_nil))) :pattern ((str2bytes s)))))`)
 }
 
 func (fr *frame) typeAssert(x *ssa.TypeAssert) SV {
